@@ -30,7 +30,10 @@ OutMatches(o, j) ==
 TNew ==
   /\ IsEv("new") /\ Adv
   /\ Construct(CfgOf(Rec[l]))
-  /\ InitVals(CfgOf(Rec[l])).newErr.k = Rec[l].out
+  \* any reason for which the clause list must be rejected is a correct report; "ok" only for a consistent list
+  /\ LET offs == Offences(CfgOf(Rec[l]).leaves, HasMutexApi) IN
+       IF offs = {} THEN Rec[l].out = "ok" ELSE Rec[l].out \in { o.k : o \in offs }
+  /\ AssembleAgrees(CfgOf(Rec[l]).leaves, HasMutexApi)
 TCall ==
   /\ IsEv("call") /\ Adv
   /\ Call(NodeOf(Rec[l]))
